@@ -109,7 +109,59 @@ def sub_typed(inp):
     return a
 
 
-SUBS = {'typed': sub_typed}
+def sub_alike(inp):
+    """inp: {'first': text, 'narrow': text, 'use': text}: two trees that print alike but store different types.
+
+    `first` (a valid predicate, e.g. `x = y and x = "s"`) is parsed and validated; then `narrow` (e.g. `x + 0 = y`) is
+    simplified - the neutral operation disappears, the result prints like the first conjunct of `first` but its references
+    are numbers - and joined with `use` (`x = "s"`). The library may refuse the join (TypeError: the property does not judge
+    that here); whatever it returns must be well-typed, in particular all occurrences of one reference share a type."""
+    from hpl.rewrite import simplify
+
+    k, first = lib.outcome('predicate', inp['first'])
+    k2, narrow = lib.outcome('predicate', inp['narrow'])
+    k3, use = lib.outcome('predicate', inp['use'])
+    if 'ast' not in (k2,) or k3 != 'ast':
+        return 'rejected-by-parser'
+    if k == 'ast':
+        check(first, 'parse', inp)
+    st, slim = core.guarded(simplify, narrow)
+    if st == 'exc' or not getattr(slim, 'is_predicate', False):
+        return 'not-simplified'
+    check(slim, 'simplify', inp)
+    n = 0
+    for what, fn in (('simplify(narrow).join(use)', lambda: slim.join(use)), ('use.join(simplify(narrow))', lambda: use.join(slim)),
+                     ('narrow.join(use)', lambda: narrow.join(use))):
+        st, j = core.guarded(fn)
+        if st == 'ok' and hasattr(j, '__attrs_attrs__'):
+            check(j, what, inp)
+            n += 1
+    return 'joined' if n else 'join-refused'
+
+
+SUBS = {'typed': sub_typed, 'alike': sub_alike}
+
+
+def alike_table():
+    """Neutral operations that simplify removes narrow their operand on the way (x + 0 makes x a number, `not not x` a
+    boolean); the simplified tree then prints like the plain atom. Every such wrapper x every atom form x every later
+    use of the same reference at another type."""
+    x, y = mast.own('x'), mast.own('y')
+    one, zero = ('lit', 'int', '1'), ('lit', 'int', '0')
+    b = mast.binop
+    num_wrap = [lambda e: b('+', e, zero), lambda e: b('*', e, one), lambda e: b('-', e, zero), lambda e: b('+', zero, e), lambda e: b('/', e, one)]
+    bool_wrap = [lambda e: ('un', 'not', ('un', 'not', e)), lambda e: b('and', e, mast.TRUE), lambda e: b('or', e, mast.FALSE), lambda e: b('and', mast.TRUE, e)]
+    atoms = [lambda w: b('=', w, y), lambda w: b('!=', w, y), lambda w: b('=', y, w), lambda w: b('in', w, ('set', (y, x))) if False else b('in', w, ('set', (y,)))]
+    uses = {'S': b('=', x, ('lit', 'str', '"s"')), 'B': b('or', x, mast.FALSE), 'N': b('>', b('+', x, one), zero)}
+    for T, wraps in (('N', num_wrap), ('B', bool_wrap)):
+        for wi, w in enumerate(wraps):
+            for ai, atom in enumerate(atoms):
+                for U, use in uses.items():
+                    if U == T:
+                        continue
+                    first = b('and', atom(x), use)
+                    yield {'first': mast.render(('pred', first)), 'narrow': mast.render(('pred', atom(w(x)))), 'use': mast.render(('pred', use)),
+                           'label': f'{T}{wi}:{ai}:{U}'}
 
 
 def gen_case(ch):
@@ -173,6 +225,13 @@ def run_table(ctx):
                     continue
                 ctx.case((kind, text), True, 'table:' + label.split(':')[0])
     ctx.exhaustive['builtin-x-argument-shape-table'] = True
+    for inp in alike_table():
+        try:
+            r = sub_alike(inp)
+        except Violation as v:
+            ctx.report(v)
+            r = 'violation'
+        ctx.case(('alike', inp['first'], inp['narrow']), True, 'print-alike-table:' + r)
 
 
 def run(ctx):
